@@ -134,6 +134,14 @@ def true_division(q: ast.AST, **kw) -> bool:
     return any(isinstance(n, ast.BinOp) and isinstance(n.op, ast.Div) for n in ast.walk(q))
 
 
+def index_of_computed_sequence(q: ast.AST, **kw) -> bool:
+    "x[i] where x is itself the result of Select / Where / SelectMany (not a collection the event model hands out)"
+    for n in ast.walk(q):
+        if isinstance(n, ast.Subscript) and call_name(n.value) in SEQ_OPS:
+            return True
+    return False
+
+
 def always(q: ast.AST, **kw) -> bool:
     return True
 
@@ -147,6 +155,7 @@ PREDICATES: Dict[str, Callable[..., bool]] = {
     "range_call": range_call,
     "range_with_computed_bound": range_with_computed_bound,
     "true_division": true_division,
+    "index_of_computed_sequence": index_of_computed_sequence,
 }
 
 
